@@ -71,20 +71,20 @@ def gen_var(nprs, var, dates, bias):
     """in-range data for a bounded ISIMIP variable; `bias` in {-1, 0, 1} shifts the distribution (dry / none / wet bias)"""
     n = dates.size
     if var == "hurs":  # percent, saturation at 100 and (rarely) 0
-        a, b = {-1: (2.0, 3.0), 0: (4.0, 2.0), 1: (8.0, 1.2)}[bias]
+        a, b = {-1: (2.0, 3.0), 0: (4.0, 2.0), 1: (8.0, 1.2), 2: (8.0, 0.6)}[bias]  # 2: humid, piled up at saturation
         x = 100 * nprs.beta(a, b, n)
-        x[nprs.random_sample(n) < 0.03 + 0.05 * (bias == 1)] = 100.0
+        x[nprs.random_sample(n) < 0.03 + 0.05 * (bias >= 1)] = 100.0
         x[nprs.random_sample(n) < 0.01] = 0.0
         return x
     if var == "prsnratio":  # fraction of snowfall: many exact 0 / 1
-        a, b = {-1: (0.8, 3.0), 0: (1.5, 1.5), 1: (3.0, 0.8)}[bias]
+        a, b = {-1: (0.8, 3.0), 0: (1.5, 1.5), 1: (3.0, 0.8), 2: (4.0, 0.6)}[bias]
         x = nprs.beta(a, b, n)
         u = nprs.random_sample(n)
         x[u < 0.25] = 0.0
         x[u > 0.85] = 1.0
         return x
     if var == "tasskew":
-        a, b = {-1: (2.0, 4.0), 0: (3.0, 3.0), 1: (5.0, 2.0)}[bias]
+        a, b = {-1: (2.0, 4.0), 0: (3.0, 3.0), 1: (5.0, 2.0), 2: (6.0, 0.7)}[bias]
         x = nprs.beta(a, b, n)
         x[nprs.random_sample(n) < 0.01] = 0.0
         x[nprs.random_sample(n) < 0.01] = 1.0
@@ -108,7 +108,7 @@ def gen_var(nprs, var, dates, bias):
 
 
 # ------------------------------------------------------------------ the debiasers under test (real classes, real scipy)
-def make_debiaser(name, mode, var="pr", fast=True, delta_shift="additive", year_windows=None):
+def make_debiaser(name, mode, var="pr", fast=True, delta_shift="additive", year_windows=None, parametric=False):
     """mode: 'win' (running windows; + year windows for CDFt / QDM) | 'nowin' (window-free; ISIMIP: month mode)"""
     from ibicus.debias import (CDFt, DeltaChange, ISIMIP, LinearScaling, QuantileDeltaMapping, QuantileMapping,
                                ScaledDistributionMapping)
@@ -127,18 +127,25 @@ def make_debiaser(name, mode, var="pr", fast=True, delta_shift="additive", year_
             return QuantileMapping.for_precipitation(model_type="hurdle", **rw)
         if name == "QuantileMapping-censored":
             return QuantileMapping.for_precipitation(model_type="censored", censoring_threshold=THR_ISIMIP, **rw)
+        if name == "QuantileMapping-fromvar":
+            return QuantileMapping.from_variable("pr", **rw)
         if name == "ScaledDistributionMapping":
             return ScaledDistributionMapping.from_variable("pr", **rw)
+        if name == "ScaledDistributionMapping-forpr":  # the documented convenience constructor
+            return ScaledDistributionMapping.for_precipitation(**rw)
+        if name == "QuantileDeltaMapping-forpr":
+            return QuantileDeltaMapping.for_precipitation(**rw, **yw)
         if name == "CDFt":
             return CDFt.from_variable("pr", delta_shift=delta_shift, **rw, **yw)
         if name == "QuantileDeltaMapping":
             return QuantileDeltaMapping.from_variable("pr", **rw, **yw)
         if name == "ISIMIP":
+            opt = dict(nonparametric_qm=False) if parametric else {}  # parametric step 6 for a doubly bounded variable
             if mode == "win":
                 L = 91 if var == "pr" else 31
                 return ISIMIP.from_variable(var, running_window_mode=True, running_window_length=L,
-                                            running_window_step_length=(15 if fast else 1))
-            return ISIMIP.from_variable(var, running_window_mode=False)
+                                            running_window_step_length=((31 if parametric else 15) if fast else 1), **opt)
+            return ISIMIP.from_variable(var, running_window_mode=False, **opt)
     raise ValueError(name)
 
 
@@ -212,7 +219,7 @@ def check_pr(name, deb, out, inputs):
     neg = out < 0
     if neg.any():
         bad.append(("negative", f"{int(neg.sum())} negative values, min {out[neg].min()!r}", first(neg)))
-    if name == "QuantileDeltaMapping":
+    if name.startswith("QuantileDeltaMapping"):
         thr = float(deb.censoring_threshold)
         m = (out != 0) & ~(out >= thr)
         if m.any():
@@ -260,7 +267,7 @@ def check_isimip(deb, var, out):
 
 
 # ------------------------------------------------------------------ one case (replayable from its dict)
-def gen_case(rng, name, var, mode, tier, long_future=False):
+def gen_case(rng, name, var, mode, tier, long_future=False, regime=None):
     case = {"debiaser": name, "variable": var, "mode": mode, "case_seed": rng.randint(0, 2**31 - 2),
             "years": rng.choice([3, 4]) if tier == "quick" else rng.choice([3, 4, 5, 6]),
             "fast_windows": True if tier == "quick" else rng.random() < 0.8}
@@ -275,6 +282,16 @@ def gen_case(rng, name, var, mode, tier, long_future=False):
         if name == "CDFt":  # SSR with every delta shift (additive is the default for pr)
             case["delta_shift"] = rng.choice(["additive", "multiplicative", "no_shift"])
         case["wet_floor"] = rng.choice([0.0, 0.0, THR_ISIMIP])
+        if regime == "monsoon" or (regime is None and not long_future and rng.random() < 0.25):
+            # wet-day amounts concentrated away from zero (gamma shape >= 3) and strongly differing wet-day frequencies
+            case["regime"] = "monsoon"
+            case["shape"] = [round(rng.uniform(3.0, 6.0), 2) for _ in range(3)]
+            case["scale"] = [rng.choice([2e-5, 3.5e-5, 5e-5]) for _ in range(3)]
+            wet, dry = rng.uniform(0.15, 0.35), rng.uniform(0.7, min(hi, 0.88))
+            pd = rng.choice([[wet, dry, wet], [wet, dry, dry], [dry, wet, wet], [wet, dry, rng.uniform(0.3, 0.6)]])
+            case["pdry"] = [round(x, 3) for x in pd]
+            case["drizzle"], case["at_threshold"], case["wet_floor"] = 0.0, 0, 0.0
+            case["years"] = max(case["years"], 5)
         if long_future:
             # a future of 12-30 years: more than one running window over years of cm_future (default 17 / 9); the second
             # and later year windows must see the same obs / cm_hist (and the same SSR threshold) as the first
@@ -282,6 +299,13 @@ def gen_case(rng, name, var, mode, tier, long_future=False):
             case["years"] = rng.choice([4, 6, 10])
             case["year_windows"] = True if name == "CDFt" else rng.choice([True, True, False])
             case["wet_floor"] = rng.choice([THR_ISIMIP, THR_ISIMIP, 0.0])
+    elif regime == "near-bound":
+        # parametric step 6 (nonparametric_qm=False) with data piled up near the upper bound: high quantiles of the fitted
+        # beta distribution are requested; they must not pass the upper threshold
+        case["parametric"] = True
+        case["bias"] = [rng.choice([1, 2, 2]) for _ in range(3)]
+        case["nan_fraction"] = 0.0
+        case["years"] = max(case["years"], 4)
     else:
         case["bias"] = [rng.choice([-1, 0, 1]) for _ in range(3)]
         case["nan_fraction"] = rng.choice([0.0, 0.0, 0.1]) if var == "prsnratio" else 0.0
@@ -315,7 +339,7 @@ def run_case(case):
     o, h, f = series
     name, var, mode = case["debiaser"], case["variable"], case["mode"]
     deb = make_debiaser(name, mode, var, fast=case.get("fast_windows", True), delta_shift=case.get("delta_shift", "additive"),
-                        year_windows=case.get("year_windows"))
+                        year_windows=case.get("year_windows"), parametric=bool(case.get("parametric")))
     info = {}
     if var == "pr":
         thr = max(THR_ISIMIP, THR_QDM)
@@ -413,7 +437,7 @@ def run(tier, res, force_search=False):
 
     # ---- the property's oracle on the real code (real scipy families)
     t2 = time.time()
-    reps = 3 if tier == "quick" else 20
+    reps = 3 if tier == "quick" else 12
     if force_search or not lean_ok or res.tie_broken:
         reps *= 3
     plan = []
@@ -424,17 +448,26 @@ def run(tier, res, force_search=False):
         for var in ISIMIP_VARS:
             for mode in ("win", "nowin"):
                 plan.append(("ISIMIP", var, mode))
-        plan += [("CDFt", "pr", "nowin", True), ("CDFt", "pr", "win", True), ("QuantileDeltaMapping", "pr", "nowin", True),
-                 ("QuantileDeltaMapping", "pr", "win", True)]
+        plan += [("CDFt", "pr", "nowin", "long"), ("CDFt", "pr", "win", "long"), ("QuantileDeltaMapping", "pr", "nowin", "long"),
+                 ("QuantileDeltaMapping", "pr", "win", "long")]
+        # every for_precipitation constructor the property covers, next to from_variable("pr"); monsoon-type samples
+        plan += [("ScaledDistributionMapping-forpr", "pr", "nowin", "monsoon")] * 4
+        plan += [("ScaledDistributionMapping-forpr", "pr", "win", "monsoon"), ("ScaledDistributionMapping", "pr", "nowin", "monsoon"),
+                 ("QuantileMapping-fromvar", "pr", "nowin", None), ("QuantileMapping-hurdle", "pr", "nowin", "monsoon"),
+                 ("QuantileMapping-censored", "pr", "nowin", "monsoon"), ("QuantileDeltaMapping-forpr", "pr", ("win", "nowin")[r % 2], "monsoon")]
+        # doubly bounded variables with the parametric step 6 and near-bound data (rsds: only its own statement, >= 0)
+        for j, var in enumerate(("hurs", "prsnratio", "tasskew")):
+            plan.append(("ISIMIP", var, ("nowin", "win")[(r + j) % 2], "near-bound"))
     problems_all, stats, oracle_samples = [], {}, []
-    budget_s = 75 if tier == "quick" else 600
+    budget_s = 75 if tier == "quick" else 450
     for k, (name, var, mode, *rest) in enumerate(plan):
         if time.time() - t2 > budget_s * (3 if (force_search or not lean_ok or res.tie_broken) else 1):
             res.notes.append(f"oracle stopped after {k} of {len(plan)} planned cases (time budget)")
             break
-        case = gen_case(rng, name, var, mode, tier, long_future=bool(rest))
+        tag = rest[0] if rest else None
+        case = gen_case(rng, name, var, mode, tier, long_future=(tag == "long"), regime=(tag if tag in ("monsoon", "near-bound") else None))
         status, problems, info = run_case(case)
-        key = f"{name}/{var}/{mode}" + ("/long-future" if rest else "")
+        key = f"{name}/{var}/{mode}" + (f"/{tag}" if tag else "")
         st = stats.setdefault(key, {"ok": 0, "outside": 0, "exception": 0, "violations": 0})
         st[status] += 1
         if status == "exception":
